@@ -44,6 +44,18 @@ INFO = {
  "C11": ("PBT of sum-copy / sum-diff: destination vs. independent sum, metamorphic (sum-copy;sum-diff = clean, repeat = no-op), perturbation => exact listing",
          "After sum-copy every selected destination slot equals the independent sum (NaN included); sum-diff is clean; after perturbing slots sum-diff lists exactly the deviations. Exploration.",
          TB + "Z5 (missing side in sum-diff) not asserted."),
+ "C12": ("differential PBT: the same command run against the directory and against an in-process whispertool server over real HTTP, at the same controlled clock",
+         "Generated served trees and commands (view, view-raw, sum, diff, copy, sum-diff, globs; existing and missing targets) are executed locally and remotely; result class, text output and copied destination bytes must be identical. Exploration.",
+         TB + "Error messages are not compared, only classes; one server per check process."),
+ "C16": ("PBT over subcommand x selection x window x injected environment fault with effect oracles (baseline run + faulty run)",
+         "Every subcommand is run with generated selections, windows and faults (unopenable / unwritable text output, missing or corrupt source, uncreatable destination); a panic, or success without the effect, is a violation. Exploration / fault injection by construction.",
+         TB + "Root cannot be denied by permissions: ENOTDIR, EISDIR, /proc and /dev/full stand in."),
+ "C18": ("PBT of view / view-raw text output parsed back and compared with library fetches and an independent parse of the file bytes",
+         "Printed header, point records (bit-exact after parsing) and raw slot dumps are compared with the fetched windows and the physical slots; view records must reappear in view-raw. Exploration.",
+         TB + "Z6 (from == until in view-raw) not asserted."),
+ "C20": ("PBT of generate with a validity predicate over the produced file (many correct outputs)",
+         "Generated layouts, maxima, fill modes and generation instants; header bytes, emptiness without fill, value range/integrality and the coarse = sum of retained finer slots relation are checked; existing destinations must be refused untouched. Exploration.",
+         TB + "The generator's RNG is crypto-seeded; only validity is judged."),
  "C04": ("PBT against an executable contract in exact arithmetic (rapid), metamorphic over stored content",
          "The fetch shape contract is evaluated in int64 arithmetic and compared for generated (layout, clock, window, id) tuples on empty, partly written and written files. Exploration.",
          TB + "Clock in zone Z7."),
